@@ -324,7 +324,7 @@ pub fn enc_once(ctx: &Ctx, scn: &Value) -> EncOut {
     let covs: Rc<RefCell<Vec<u64>>> = Rc::new(RefCell::new(Vec::new()));
     // inject = false: ephemeral and payload key are left to the library (C07); the output is
     // then verified after the run by specification-directed opening of the header
-    let inject = scn.get("inject").and_then(|x| x.as_bool()).unwrap_or(true);
+    let inject = api != "key" || scn.get("inject").and_then(|x| x.as_bool()).unwrap_or(true);
     if inject {
         let v = ver.clone();
         wr.tap = Some(Box::new(move |b: &[u8]| {
@@ -509,7 +509,8 @@ pub fn run_rt(ctx: &Ctx, scn: &Value) -> Vec<Value> {
         };
         twin = json!({"used": true, "prefix_ok": ok, "res": t.res});
     }
-    let auth: Vec<Value> = (0..auth_n).map(|j| json!({"end": ends[j], "len": plens[j]})).collect();
+    // informational only (the trace specification works from the per-event projections)
+    let auth: Vec<Value> = (0..std::cmp::min(auth_n, 32)).map(|j| json!({"end": ends[j], "len": plens[j]})).collect();
     lines.push(json!({
         "ev":"begin","op":"dec","api":api,"id":scn.get("id").cloned().unwrap_or(json!("")),
         "cs":cs,"H":h,"flen":flen,"plen":plen,"class":class,"auth":auth,
@@ -887,6 +888,84 @@ pub fn run_dec(ctx: &Ctx, scn: &Value) -> Vec<Value> {
     lines
 }
 
+/// Decryption of a specification-built file of arbitrary size that is never held in
+/// memory: the source synthesises header and records on demand from the specification's
+/// terms, the sink compares with the generated plaintext and discards (C11).
+pub fn run_bigdec(ctx: &Ctx, scn: &Value) -> Vec<Value> {
+    let api = jstr(scn, "api");
+    let cs = 65536u64;
+    let plen = ju64(scn, "plen");
+    let chunk = ju64_or(scn, "chunk", 65536);
+    let pseed = ju64_or(scn, "pseed", 1);
+    let kseed = ju64_or(scn, "kseed", 1);
+    let sf = spec_file(ctx, api, jstr_or(scn, "aad", "key"), kseed, scn);
+    let h = sf.header.len() as u64;
+    let nrec = if plen == 0 { 1 } else { (plen + chunk - 1) / chunk };
+    let rec_full = 32 + chunk;
+    let last_len = plen - (nrec - 1) * chunk;
+    let flen = h + (nrec - 1) * rec_full + 32 + last_len;
+    let t: *const Templates = &ctx.t;
+    let header = sf.header.clone();
+    let key = sf.key.clone();
+    let prefix = sf.prefix.clone();
+    let mut cache: (u64, Vec<u8>) = (u64::MAX, Vec::new());
+    let fill = move |pos: u64, buf: &mut [u8]| {
+        let mut p = pos;
+        let mut o = 0usize;
+        while o < buf.len() {
+            if p < h {
+                buf[o] = header[p as usize];
+                p += 1;
+                o += 1;
+                continue;
+            }
+            let q = p - h;
+            let i = q / rec_full;
+            let within = (q % rec_full) as usize;
+            if cache.0 != i {
+                let lo = i * chunk;
+                let hi = std::cmp::min(plen, lo + chunk);
+                let pt = pbytes(pseed, lo, hi);
+                let last = if i + 1 == nrec { 1 } else { 0 };
+                let tt = unsafe { &*t };
+                cache = (i, tt.chunk_record(&key, &prefix, i, last, &pt));
+            }
+            let n = std::cmp::min(buf.len() - o, cache.1.len() - within);
+            buf[o..o + n].copy_from_slice(&cache.1[within..within + n]);
+            o += n;
+            p += n as u64;
+        }
+    };
+    let mut d = scn.clone();
+    d["store"] = json!(false);
+    let o = dec_once(ctx, &d, Source::Lazy { len: flen, fill: Box::new(fill) }, Expect::Gen { seed: pseed, len: plen }, kseed, false);
+    let mut lines = Vec::new();
+    lines.push(json!({
+        "ev":"begin","op":"dec","api":api,"id":scn.get("id").cloned().unwrap_or(json!("")),
+        "cs":cs,"H":h,"flen":flen,"plen":plen,"class":"must_accept",
+        "twin":{"used":false,"prefix_ok":true,"res":"n/a"},"faults":fault_kinds(scn),"heapk":heap_bound(cs, api),
+    }));
+    let lag = 2 * (cs + 32);
+    emit_events(&mut lines, &o.events, |_i, e, j| {
+        // number of records whose end <= consumed
+        let c = e.consumed;
+        let mut n_done = if c < h { 0 } else { std::cmp::min(nrec, (c - h) / rec_full) };
+        if c >= flen {
+            n_done = nrec;
+        }
+        let authc: u64 = if n_done == nrec { plen } else { n_done * chunk };
+        let x = c.saturating_sub(lag + h);
+        let cnt = if x == 0 { 0 } else { (x - 1) / rec_full };
+        let due = std::cmp::min(cnt, nrec - 1) * chunk;
+        j["authc"] = json!(authc);
+        j["due"] = json!(due);
+    });
+    let boundary = o.accepted == plen || o.accepted % chunk == 0;
+    lines.push(json!({"ev":"end","res":if o.overflow {"hang"} else {o.res},"cons":o.consumed,"acc":o.accepted,
+                      "eofs":o.eof_reads,"late":o.late,"sender_ok":o.sender_ok,"boundary":boundary}));
+    lines
+}
+
 pub fn run_file(ctx: &Ctx, inp: &str, outp: &str) {
     use std::io::{BufRead, BufReader, BufWriter, Write};
     let f = BufReader::new(std::fs::File::open(inp).expect("open scenarios"));
@@ -901,6 +980,7 @@ pub fn run_file(ctx: &Ctx, inp: &str, outp: &str) {
             "enc" => run_enc(ctx, &scn),
             "dec" => run_dec(ctx, &scn),
             "rt" => run_rt(ctx, &scn),
+            "bigdec" => run_bigdec(ctx, &scn),
             x => panic!("op {}", x),
         };
         for l in lines {
